@@ -45,7 +45,32 @@ impl GhostChainSync {
         ]
         .concat()
     }
+    /// decodes a buffer received from a peer; an empty chain is returned for a buffer that is
+    /// too short for the number of entries it announces (use `try_deserialize` to tell)
     pub fn deserialize(buffer: Vec<u8>) -> GhostChainSync {
+        GhostChainSync::try_deserialize(buffer).unwrap_or(GhostChainSync {
+            start: [0; 32],
+            prehashes: vec![],
+            previous_block_hashes: vec![],
+            block_ids: vec![],
+            block_ts: vec![],
+            txs: vec![],
+            gts: vec![],
+        })
+    }
+    pub fn try_deserialize(buffer: Vec<u8>) -> Result<GhostChainSync, std::io::Error> {
+        if buffer.len() < 36 {
+            return Err(std::io::Error::from(std::io::ErrorKind::InvalidData));
+        }
+        let count: usize = u32::from_be_bytes(buffer[32..36].try_into().unwrap()) as usize;
+        // 82 bytes per entry : 2 hashes, id, timestamp, 2 flags
+        match count.checked_mul(82).and_then(|size| size.checked_add(36)) {
+            Some(expected) if buffer.len() >= expected => {}
+            _ => return Err(std::io::Error::from(std::io::ErrorKind::InvalidData)),
+        }
+        Ok(GhostChainSync::deserialize_checked(buffer))
+    }
+    fn deserialize_checked(buffer: Vec<u8>) -> GhostChainSync {
         let start: SaitoHash = buffer[0..32].to_vec().try_into().unwrap();
         let count: usize = u32::from_be_bytes(buffer[32..36].try_into().unwrap()) as usize;
         let mut prehashes: Vec<SaitoHash> = vec![];
